@@ -404,7 +404,7 @@ func (g *G) LetBad(name string) []Tok {
 
 // QueryBad returns a statement that fails at lex, parse or compile level.
 func (g *G) QueryBad() []Tok {
-	switch g.R.Intn(18) {
+	switch g.R.Intn(19) {
 	case 0:
 		return toks("!")
 	case 1:
@@ -438,6 +438,10 @@ func (g *G) QueryBad() []Tok {
 		return toks(g.pick(Tables), "|", "where", "a", "==", "1.", "and", "b", "==", "0x")
 	case 15:
 		return toks(g.pick(Tables), "|", "where", "a", "-", "-", "b", "==", `"ends with escaped quote\"`)
+	case 18:
+		// two stages that each fail at compile time
+		fs := []string{"not", "strcat", "isnull", "tolower", "countif", "iif"}
+		return toks(g.pick(Tables), "|", "where", g.pick(fs), "(", ")", "|", "project", "a", "=", g.pick(fs), "(", ")", "|", "count")
 	case 16:
 		// a lone ! swallows the next character: what follows only LOOKS like a string / comment
 		return toks(g.pick(Tables), "|", "where", "a", "==", "!'x", "and", "b", "==", "1")
